@@ -203,3 +203,32 @@ Proof.
   - apply Ascii.eqb_eq in E. subst c. exfalso. apply H. now left.
   - rewrite IH; [reflexivity|]. intros H'. apply H. now right.
 Qed.
+
+(* ---------- presentation: byte-order mark, CRLF line ends, optional final newline ---------- *)
+Lemma strip_bom_bom text : strip_bom (B_EF :: B_BB :: B_BF :: text) = text.
+Proof. reflexivity. Qed.
+Theorem read_all_bom text : read_all (B_EF :: B_BB :: B_BF :: text) = tokenize (normalise text).
+Proof. reflexivity. Qed.
+(* writing every line end as CR LF changes nothing *)
+Definition crlf (text : list ascii) : list ascii := flat_map (fun c => if Ascii.eqb c NL then [CR; NL] else [c]) text.
+Theorem normalise_crlf text : ~ In CR text -> normalise (crlf text) = text.
+Proof.
+  induction text as [|c text IH]; intros H; [reflexivity|]. cbn [crlf flat_map].
+  assert (Hc : c <> CR) by (intros ->; apply H; now left). assert (Ht : ~ In CR text) by (intros I; apply H; now right).
+  destruct (Ascii.eqb_spec c NL) as [->|N].
+  - cbn [app normalise]. rewrite Ascii.eqb_refl. change (Ascii.eqb CR CR) with true. cbv iota.
+    change (flat_map _ text) with (crlf text). cbn [normalise]. change (Ascii.eqb NL CR) with false. cbv iota. now rewrite IH.
+  - cbn [app normalise]. destruct (Ascii.eqb_spec c CR); [congruence|]. change (flat_map _ text) with (crlf text). now rewrite IH.
+Qed.
+(* a final newline is optional: the reader treats end of input like a line end *)
+Theorem final_newline_optional : forall inp s n fld rc acc, go s n fld rc acc (inp ++ [NL]) = go s n fld rc acc inp.
+Proof.
+  induction inp as [|c inp IH]; intros s n fld rc acc.
+  - cbn [app]. destruct s; cbn [go]; rewrite ?Ascii.eqb_refl; try reflexivity;
+      try (destruct (push_rec n (rev (rev fld :: rc)) acc) as [[n' acc']|]; reflexivity).
+  - cbn [app]. destruct s; cbn [go];
+      repeat match goal with |- context [if ?b then _ else _] => destruct b end;
+      try (destruct (push_rec n (rev (rev fld :: rc)) acc) as [[n' acc']|]); try reflexivity; apply IH.
+Qed.
+Corollary tokenize_final_newline inp : tokenize (inp ++ [NL]) = tokenize inp.
+Proof. apply final_newline_optional. Qed.
